@@ -38,6 +38,8 @@ type Op struct {
 	Chunk []int    `json:"chunk,omitempty"`
 	From  int      `json:"from,omitempty"`
 	O     int      `json:"o"`
+	MemC  int      `json:"memcap,omitempty"`
+	Big   []int    `json:"big,omitempty"`
 	P     string   `json:"p,omitempty"`
 	V     string   `json:"v,omitempty"`
 	Items []int    `json:"items"`
@@ -86,6 +88,10 @@ var (
 	hashCache  = map[string][]common.Hash{}
 	origCache  = map[string]common.Hash{}
 )
+
+// bigBodies are the body ids whose first transaction carries a 4 KiB payload (set per run from the Init record: the
+// configurations of one run agree on it).
+var bigBodies = map[int]bool{}
 
 func mkTxs(b int) []*types.Transaction {
 	n := 1 + b%3
